@@ -9,6 +9,8 @@ mod history;
 mod hooks;
 mod interp;
 mod known;
+mod lockstep;
+mod multi;
 mod oracle;
 mod props;
 mod real;
@@ -20,6 +22,7 @@ mod props_sched;
 mod seq;
 mod sources;
 mod twin;
+mod typeprobe;
 
 #[global_allocator]
 static GLOBAL: alloc::Counting = alloc::Counting;
@@ -51,6 +54,7 @@ fn main() {
             let prop = args[2].as_str();
             let tier = std::env::var("VERIF_TIER").unwrap_or_else(|_| args[3].clone());
             let tier = if tier == "thorough" { "thorough" } else { "quick" };
+            driver::watchdog::start(prop.to_string());
             let mut ctx = driver::Ctx::new(prop, tier, seed);
             match props::check(&mut ctx) {
                 Some(meta) => {
@@ -66,6 +70,25 @@ fn main() {
         "replay" => {
             let prop = args[2].as_str();
             let path = std::path::Path::new(&args[3]);
+            if path.extension().and_then(|x| x.to_str()) == Some("rs") {
+                // a generated client program that must be rejected by the compiler
+                let Some((rlib, deps)) = typeprobe::find_rlib() else {
+                    eprintln!("cannot find the crate's rlib");
+                    std::process::exit(2);
+                };
+                let src = std::fs::read_to_string(path).unwrap_or_default();
+                let dir = known::verif_root().join("harness").join("target").join("probes");
+                let _ = std::fs::create_dir_all(&dir);
+                let p = typeprobe::Program { name: "replay".into(), class: "replay", src, expect: typeprobe::Expect::Reject(&[]), twin: None };
+                let r = typeprobe::compile(&p, &rlib, &deps, &dir);
+                if r.ok {
+                    println!("the program compiles although it must be rejected");
+                    println!("VIOLATION property={} replay={}", prop, path.display());
+                    std::process::exit(1);
+                }
+                println!("replay {}: rejected by the compiler ({:?}); property {} holds on this program", path.display(), r.codes, prop);
+                std::process::exit(0);
+            }
             let (case, v) = match replay::load(path) {
                 Ok(x) => x,
                 Err(e) => {
